@@ -110,7 +110,7 @@ Proof.
   cbn [forallb] in Hw2. apply andb_true_iff in Hw2 as [Hb _].
   pose proof (mem_fold_strict_junk ms1 b ms2 [] Hw1 Hj Hb) as F.
   split.
-  - unfold virtual_memory_gen, parse_meminfo. rewrite L.
+  - unfold virtual_memory_gen, virtual_memory_z, parse_meminfo. rewrite L.
     destruct F as [-> | ->]; [now left|now right].
   - intros si v. unfold swap_memory_gen, parse_meminfo. rewrite L.
     destruct F as [-> | ->]; [now left|now right].
@@ -225,4 +225,71 @@ Proof.
   destruct e as [k|v k]; cbn [pcall_kernel] in *; cbn [m_cache s_cache].
   - rewrite (front_vm_sets k H1 H2 H4). cbn [fst]. now apply IH.
   - rewrite (memory_percent_spec k H1 H2 H4). now apply IH.
+Qed.
+
+(* ================================================================ /proc/zoneinfo exists but cannot be opened / read *)
+Lemma wf_no_zone k : wf_kernel k = true -> wf_kernel (no_zone k) = true.
+Proof.
+  intros Hwf. apply wf_kernel_inv in Hwf as [Hm [_ Hv]]. unfold wf_kernel, no_zone.
+  cbn [k_mem k_zone k_vm opt_forall]. now rewrite Hm, Hv.
+Qed.
+Lemma float_exact_no_zone k : float_exact (no_zone k) = true.
+Proof.
+  unfold float_exact, no_zone. cbn [k_mem k_zone].
+  destruct (kbytes (k_mem k) "Active(file):"), (kbytes (k_mem k) "Inactive(file):"), (kbytes (k_mem k) "SReclaimable:"); reflexivity.
+Qed.
+(* without zoneinfo the estimate is free + page cache *)
+Lemma fallback_no_zone k : sp_fallback (no_zone k) = sp_free k + default0 (kbytes (k_mem k) "Cached:").
+Proof.
+  unfold sp_fallback, sp_free, no_zone. cbn [k_mem k_zone].
+  destruct (kbytes (k_mem k) "Active(file):"), (kbytes (k_mem k) "Inactive(file):"), (kbytes (k_mem k) "SReclaimable:"); reflexivity.
+Qed.
+
+(* open() failing with ANY errno (EACCES, EIO, EISDIR ...) is answered like a missing file: the
+   demanded record of the kernel without zoneinfo -- estimate = free + cached, never an exception *)
+Theorem vm_zoneinfo_open_error k e : wf_kernel k = true -> has_total_free k = true ->
+  virtual_memory_z true (k_pagesize k) (k_meminfo (k_mem k)) (ZOpenErr e) = Val (spec_vm (no_zone k)) /\
+  virtual_memory_z true (k_pagesize k) (k_meminfo (k_mem k)) ZAbsent = Val (spec_vm (no_zone k)) /\
+  sp_fallback (no_zone k) = sp_free k + default0 (kbytes (k_mem k) "Cached:").
+Proof.
+  intros Hwf Htf.
+  pose proof (vm_exact_gen true (no_zone k) (wf_no_zone k Hwf) Htf (float_exact_no_zone k) (or_introl eq_refl)) as E.
+  cbn [no_zone k_mem k_zone k_pagesize option_map] in E. fold (no_zone k) in E.
+  split; [|split; [exact E|apply fallback_no_zone]].
+  rewrite <- E. reflexivity.
+Qed.
+
+(* observation: a read() error after a successful open escapes as OSError when the file is consulted
+   (the for loop is not inside the try) *)
+Theorem vm_zoneinfo_read_error k : wf_kernel k = true -> has_total_free k = true -> zone_read k = true ->
+  virtual_memory_z true (k_pagesize k) (k_meminfo (k_mem k)) (ZReadErr []) = Exc OSError.
+Proof.
+  intros Hwf Htf Hzr. apply wf_kernel_inv in Hwf as [Hm _].
+  destruct (parse_meminfo_printed true (k_mem k) Hm (or_introl eq_refl)) as [d [Hp Hd]].
+  unfold virtual_memory_z. rewrite Hp. cbn [obind].
+  unfold has_total_free in Htf.
+  destruct (kbytes (k_mem k) "MemTotal:") as [t|] eqn:Et; [|discriminate].
+  destruct (kbytes (k_mem k) "MemFree:") as [f|] eqn:Ef; [|discriminate].
+  unfold vm_of_dict, calc_avail, calc_avail_gen.
+  unfold K_MemTotal, K_MemFree, K_MemAvailable, K_ActiveFile, K_InactiveFile, K_SReclaimable.
+  rewrite !Hd, Et, Ef. cbn [of_option obind].
+  unfold zone_read, needs_estimate in Hzr.
+  destruct (kbytes (k_mem k) "Active(file):"), (kbytes (k_mem k) "Inactive(file):"), (kbytes (k_mem k) "SReclaimable:");
+    try (rewrite andb_false_r in Hzr; discriminate Hzr).
+  cbn [zone_open lines_keep zone_low obind].
+  destruct (kbytes (k_mem k) "MemAvailable:") as [a|]; [|reflexivity].
+  destruct (a =? 0); [reflexivity|discriminate Hzr].
+Qed.
+
+(* ================================================================ every virtual_memory() call refreshes the cached total *)
+(* after ANY successful virtual_memory() call -- whatever was cached before -- the next
+   memory_percent() divides by that call's total, whatever the files hold by then *)
+Theorem phymem_refresh k c value ps' (mi' : bytes) (zi' : option bytes) :
+  wf_kernel k = true -> has_total_free k = true -> float_exact k = true -> 0 < sp_total k ->
+  memory_percent (fst (front_vm c (k_pagesize k) (k_meminfo (k_mem k)) (option_map k_zoneinfo (k_zone k))))
+                 value ps' mi' zi'
+  = (Some (sp_total k), Val (value * 100, sp_total k)).
+Proof.
+  intros Hwf Htf Hfl Ht. rewrite (front_vm_sets k Hwf Htf Hfl c). cbn [fst].
+  now apply memory_percent_cached.
 Qed.
